@@ -81,11 +81,8 @@ Definition subclass (h : hierarchy) (c a : cls) : bool :=
   N.eqb c a || N.eqb a cObject ||
   match mro_of h c with Some m => memN a m | None => false end.
 
-Definition key_in (fs : list (string * ty)) (kv : value * value) : bool :=
-  match fst kv with
-  | VStr s => existsb (fun f => String.eqb s (fst f)) fs
-  | _ => false
-  end.
+Definition has_key (k : string) (kvs : list (value * value)) : bool :=
+  existsb (fun kv => match fst kv with VStr s => String.eqb s k | _ => false end) kvs.
 
 Fixpoint lookup_str (k : string) (kvs : list (value * value)) : option value :=
   match kvs with
@@ -130,15 +127,25 @@ Fixpoint member (v : value) (t : ty) {struct t} : bool :=
   | TTypedDict req opt =>
       match v with
       | VDict kvs =>
-          forallb (fun kv => key_in req kv || key_in opt kv) kvs
-          && (fix rq (fs : list (string * ty)) : bool :=
-                match fs with [] => true
-                | f :: r => match lookup_str (fst f) kvs with
-                            | Some x => member x (snd f) | None => false end && rq r end) req
-          && (fix op (fs : list (string * ty)) : bool :=
-                match fs with [] => true
-                | f :: r => match lookup_str (fst f) kvs with
-                            | Some x => member x (snd f) | None => true end && op r end) opt
+          (* every item has a string key that is a declared field whose type admits the value
+             (required fields are looked up first) ... *)
+          forallb (fun kv =>
+                     match fst kv with
+                     | VStr s =>
+                         (fix find (fs : list (string * ty)) : bool :=
+                            match fs with
+                            | f :: r => if String.eqb s (fst f) then member (snd kv) (snd f) else find r
+                            | [] =>
+                                (fix find2 (fs2 : list (string * ty)) : bool :=
+                                   match fs2 with
+                                   | f :: r => if String.eqb s (fst f) then member (snd kv) (snd f) else find2 r
+                                   | [] => false
+                                   end) opt
+                            end) req
+                     | _ => false
+                     end) kvs
+          (* ... and every required field is present *)
+          && forallb (fun f => has_key (fst f) kvs) req
       | _ => false end
   | TFwd _ => false
   end.
